@@ -256,6 +256,9 @@ def countErrors? (n : Nat) (p : Plan) (c : Cfg) (t1₀ : List Int) (t2₀ : List
 def ScratchOk (n : Nat) (t1 : List Int) (t2 : List (List Int)) : Prop :=
   t1.length = n * (n - 1) / 2 ∧ t2.length = n ∧ ∀ r ∈ t2, r.length = n
 
+instance (n : Nat) (t1 : List Int) (t2 : List (List Int)) : Decidable (ScratchOk n t1 t2) := by
+  unfold ScratchOk; infer_instance
+
 /-- clean scratch arrays of the right size; the value of the kernel does not depend on the
 contents (theorem `scratch_irrelevant`), so this is *the* objective value -/
 def countErrors (n : Nat) (p : Plan) (c : Cfg) : Option Int :=
